@@ -305,6 +305,21 @@ example : playTagged orjsonStyle (fun _ => [])
     ∧ playCalls orjsonStyle [.dumps ⟨true, true⟩ (.obj []), .message (.raw ['a']), .dumps ⟨true, false⟩ .null, .message (.raw ['b'])]
         = [[97, 10], [98, 10]] := by decide
 
+/-- **How long the child takes does not matter.**  Whatever time each write has to wait (a child that
+stalls for longer than any timeout, with any amount outstanding), the child finds exactly the sends of
+the items, once each, in order: no line is written twice, none is skipped. -/
+theorem c06_stall_irrelevant (st : Style) (xs : List (Outbound × Nat)) :
+    (playDelayed st xs).2 = sends st (xs.map (·.1)) := by
+  induction xs with
+  | nil => rfl
+  | cons x rest ih =>
+    obtain ⟨it, w⟩ := x
+    simp only [playDelayed, List.map_cons, sends, List.filterMap_cons] at ih ⊢
+    cases ser st it <;> simp [ih]
+
+example : playDelayed orjsonStyle [(.raw ['a'], 5000), (.unserialisable, 7), (.raw ['b'], 0)] = (5000, [[97, 10], [98, 10]]) := by
+  decide
+
 /-! ## Non-vacuity: a dict whose string holds LF, CR, U+2028, NUL, a quote and U+1F600, a typed
 request with `params` absent and one with a nested null, an unserialisable object, a pre-serialised
 line -/
